@@ -62,6 +62,9 @@ def _rand_cfg(rnd, n, m, chains=True, xprob=0.12):
             # hold states: calc_output() returns UNDEF = "leave the output unchanged" (never the
             # initial state s1, and not together with requests made during the initialisation:
             # an FSM without an output does not start)
+            # the on_enter event of the state fails non-fatally (never of the initial state)
+            'nbad': [s > 0 and rnd.random() < 0.15 and not any(c.get('always') for c in chain)
+                     for s in range(n)],
             'hold': [s > 0 and rnd.random() < 0.25 and not any(c.get('always') for c in chain)
                      for s in range(n)]}
 
@@ -102,7 +105,7 @@ def stimuli(tier, seed, ctx):
                                    'on_enter': [True, True], 'on_exit': [True, True],
                                    'on_notrans': True, 'on_output': True,
                                    'chain': [dict(NOCHAIN), dict(NOCHAIN)], 'xchain': [False, k % 5 == 0],
-                                   'hold': [False, k % 4 == 1]}
+                                   'hold': [False, k % 4 == 1], 'nbad': [False, k % 7 == 2]}
                             out.append({'cfg': cfg, 'seq': _rand_seq(rnd, cfg, 8)})
     # (ii) random machines with chains
     for _ in range(600 if tier == 'quick' else 15000):
@@ -186,6 +189,7 @@ def execute(stim):
             events.append((f'e{e}', None, f's{t}' if t else None))
     ns = {'STATES': [f's{s}' for s in range(1, n + 1)], 'EVENTS': events}
     cfg.setdefault('hold', [False] * n)
+    cfg.setdefault('nbad', [False] * n)
     hold = cfg['hold']
     if any(hold):
         def calc_output(self):
@@ -221,6 +225,9 @@ def execute(stim):
                 rec('notrans', _sid(data.get('event')), 0, 0, _sid(data.get('state')))
             elif etype == 'out':
                 rec('out', 0, 0, 0, _sid(data.get('previous')), _sid(data.get('value')))
+            elif etype == 'bogus':
+                rec('on_enter', _sid(data.get('state')), 0, 0, _sid(data.get('value')))
+                raise edzed.EdzedUnknownEvent('bogus: not an event of this block')
             else:
                 ok = data.get('trigger') == etype[3:] and data.get('source') == 'fsm'
                 rec(etype if ok else etype + '_baddata', _sid(data.get('state')), 0, 0,
@@ -235,7 +242,7 @@ def execute(stim):
         kw = dict(inst)
         for s in range(1, n + 1):
             if cfg['on_enter'][s - 1]:
-                kw[f'on_enter_s{s}'] = edzed.Event('probe', 'on_enter')
+                kw[f'on_enter_s{s}'] = edzed.Event('probe', 'bogus' if cfg['nbad'][s - 1] else 'on_enter')
             if cfg['on_exit'][s - 1]:
                 kw[f'on_exit_s{s}'] = edzed.Event('probe', 'on_exit')
         if cfg['on_notrans']:
